@@ -44,13 +44,18 @@ def make_dispatcher(version, cfg=None):
     def boom(*a):
         raise ValueError("boom")
     d.register_function(boom, "boom")
+
+    def deny(*a):
+        # a method that answers with a Fault object it built itself (carrying the default configuration)
+        return impl.jsonrpclib.Fault(-32001, "denied")
+    d.register_function(deny, "deny")
     return d, cfg
 
 
 def gen_entry(rng):
     """(kind token for the model or None if the entry is not a dict, entry)"""
     r = rng.random()
-    method = rng.choice(["echo", "add", "boom", "nope"])
+    method = rng.choice(["echo", "add", "boom", "nope", "deny"])
     params = rng.choice([[1], [1, 2], {"a": 1}, [], None])
     if r < 0.3:
         e = {"jsonrpc": "2.0", "id": rng.choice([1, "x", 0, 2.5]), "method": method}
@@ -188,6 +193,10 @@ def run(ctx):
                 ctx.violate({"version": version}, "server Config changed under concurrent serving", key="config-changed")
             ctx.count(kind="concurrent/%d" % nthreads)
 
+    # ---- one preemption at every source line of the per-request dispatch (line-granular interleavings)
+    for version in (2.0, 1.0):
+        preemption_sweep(ctx, version, default_cfg, default_before)
+
     # ---- Config.copy programs
     class K1(object):
         pass
@@ -271,6 +280,83 @@ def run(ctx):
             ctx.disagree(ln[:500], io_[:500], mo[:500], component=ln.split(" ")[0])
     ctx.traces_validated += len(lines)
     ctx.assumptions.append("the footprint classifies a name bound to a call result as request-local (callee stores are scanned on their own); getattr results are treated as shared")
+
+
+SWEEP_BODIES = [
+    {"id": 1, "method": "add", "params": [1, 2]},                      # 1.0 call
+    {"jsonrpc": "2.0", "id": 2, "method": "add", "params": [1, 2]},    # 2.0 call
+    {"id": 3, "method": "boom", "params": []},                         # failing 1.0 call
+    {"jsonrpc": "2.0", "id": 4, "method": "deny", "params": []},       # 2.0 call answered with the method's own Fault
+]
+
+
+def preemption_sweep(ctx, version, default_cfg, default_before):
+    """
+    Thread A serves body a and is paused when it reaches source line L of _marshaled_single_dispatch (every
+    executable line in turn); thread B then serves body b to completion on the same dispatcher; A resumes.
+    Both replies must equal the replies of a fresh server, and both Config objects must be unchanged.
+    """
+    import sys as _sys
+    import jsonrpclib.SimpleJSONRPCServer as SRV
+    code = SRV.SimpleJSONRPCDispatcher._marshaled_single_dispatch.__code__
+    lines = sorted({ln for (_s, _e, ln) in code.co_lines() if ln})
+    pairs = [(a, b) for a in range(len(SWEEP_BODIES)) for b in range(len(SWEEP_BODIES))]
+    if not ctx.thorough:
+        pairs = [(0, 0), (0, 1), (1, 0), (2, 0), (0, 3)]
+    for (ia, ib) in pairs:
+        ta, tb = json.dumps(SWEEP_BODIES[ia]), json.dumps(SWEEP_BODIES[ib])
+        fresh, _ = make_dispatcher(version)
+        want_a = json.loads(fresh._marshaled_dispatch(ta) or "null")
+        fresh, _ = make_dispatcher(version)
+        want_b = json.loads(fresh._marshaled_dispatch(tb) or "null")
+        for pause_line in lines:
+            disp, cfg = make_dispatcher(version)
+            before = snapshot(cfg)
+            paused, resume = threading.Event(), threading.Event()
+            out = {}
+
+            def tracer(frame, event, arg):
+                if frame.f_code is code:
+                    def local(frame, event, arg):
+                        if event == "line" and frame.f_lineno == pause_line and not paused.is_set():
+                            paused.set()
+                            resume.wait(5)
+                        return local
+                    return local
+                return None
+
+            def run_a():
+                _sys.settrace(tracer)
+                try:
+                    out["a"] = disp._marshaled_dispatch(ta)
+                finally:
+                    _sys.settrace(None)
+
+            th = threading.Thread(target=run_a)
+            th.daemon = True
+            th.start()
+            # wait until A is paused at the line, or has finished without reaching it
+            for _ in range(4000):
+                if paused.is_set() or not th.is_alive():
+                    break
+                th.join(0.0005)
+            hit = paused.is_set()
+            if hit and th.is_alive():
+                out["b"] = disp._marshaled_dispatch(tb)
+            resume.set()
+            th.join(5)
+            if not hit or "b" not in out:
+                continue
+            got_a, got_b = json.loads(out.get("a") or "null"), json.loads(out["b"] or "null")
+            case = {"version": version, "paused_thread_body": ta, "paused_at_line": pause_line - code.co_firstlineno,
+                    "other_thread_body": tb}
+            if got_a != want_a or got_b != want_b:
+                ctx.violate(case, "interleaved replies %s / %s differ from the sequential replies %s / %s"
+                            % (json.dumps(got_a), json.dumps(got_b), json.dumps(want_a), json.dumps(want_b)), key="interleaving")
+            if snapshot(cfg) != before or snapshot(default_cfg) != default_before:
+                ctx.violate(case, "a Config object changed under interleaved serving", key="config-changed")
+            ctx.count(case_repr=case if pause_line == lines[len(lines) // 2] else None,
+                      nontrivial_key=("sweep", version, ia, ib, pause_line), kind="preemption/v%s" % version)
 
 
 def ordered(d, vname, kname):
